@@ -361,3 +361,4 @@ def check(run, replay=None):
 
 # workloads added in seeding rounds 7-10 (DESIGN.md sections 13.9-13.12)
 LEVEL_TEXT = LEVEL_TEXT + ' Later additions: columns of another length offered to a table that has columns (also an emptied one): refused or the table stays rectangular.'
+LEVEL_TEXT = LEVEL_TEXT + ' Round 11: start state with a read-only column; a refused row operation leaves every column unchanged.'
